@@ -94,7 +94,7 @@ def gen(rng, tier, widen=False):
 def gen_band(rng, tier, widen):
     """f_min, f_max, guardband (integer Hz) of a whole OMS set, as build_oms_list gives one range to every OMS"""
     big = tier == 'thorough' and rng.random() < 0.25
-    length = rng.choice([200, 400, 768]) if big else rng.choice([20, 24, 32, 40, 48, 64, 96])
+    length = rng.choice([200, 400, 768]) if big else rng.choice([20, 32, 40, 48, 64, 64, 96, 128])
     r = rng.random()
     if r < 0.25:
         n_min = -rng.randrange(0, length + 1)           # the range contains the 193.1 THz anchor
@@ -154,7 +154,7 @@ def gen_request(rng, idx, n_oms, n_min, n_max, gb, widen, odd=None):
     spacing = rng.choice([50, 50, 50, 37.5, 75, 25, 12.5, 62.5, 43, 100, 50])
     spacing = int(spacing * 10 ** 9)
     bit_rate = rng.choice([100, 100, 200, 400]) * 10 ** 9
-    nb_wl = rng.choice([1, 1, 1, 2, 2, 3, 4])
+    nb_wl = rng.choice([1, 1, 1, 1, 2, 2, 3, 4])
     bw = nb_wl * bit_rate - rng.choice([0, 0, 0, 10 * 10 ** 9])
     pcm = cdiv(spacing, SLOT)
     required = pcm * cdiv(bw, bit_rate)
@@ -169,18 +169,18 @@ def gen_request(rng, idx, n_oms, n_min, n_max, gb, widen, odd=None):
     g4 = gb // GRID
 
     def pick_m():
-        m = rng.choice([pcm, pcm, 2 * pcm, required, required, required + pcm, required - 1, rng.randint(1, 12)])
+        m = rng.choice([pcm, pcm, 2 * pcm, required, required, required, required + pcm, required - 1, rng.randint(1, 12)])
         return max(1, m)
 
     def pick_n(m=None):
         r = rng.random()
-        if r < 0.03:
+        if r < 0.006:
             return rng.choice([n_min - rng.randint(1, 12), n_max + rng.randint(1, 12)])   # outside the slot grid
-        if r < 0.2:
+        if r < 0.15:
             mm = m or pcm
             return rng.choice([n_min + g4 + mm, n_min + g4 + mm - 1, n_max - g4 - mm, n_max - g4 - mm + 1,
                                n_min + mm, n_min + mm + 1, n_max - mm, n_max - mm + 1, n_min, n_max])
-        if r < 0.5 and m:
+        if r < 0.7 and m:
             return n_min + g4 + m + 2 * m * rng.randrange(0, max(1, (n_max - n_min) // (2 * m)))   # packed positions
         return rng.randint(n_min, n_max)
 
@@ -281,9 +281,10 @@ def gen_unit(rng, tier, widen):
         c['pcm'] = rng.choice([1, 2, 3, 4, 4, 4, 6, 8]) if rng.random() < 0.95 else rng.choice([-1, -4])
         c['required_m'] = rng.choice([c['pcm'], 2 * c['pcm'], 3 * c['pcm'], 8 * c['pcm'], rng.randint(-2, 40), 0])
     elif op == 'assign':
-        c['m'] = rng.choice([1, 2, 4, 8, rng.randint(1, 20), 0, -2])
+        c['m'] = rng.choice([1, 2, 4, 4, 8, rng.randint(1, 10), rng.randint(1, 20), 0, -2])
         g4 = gb // GRID
-        c['n'] = rng.choice([rng.randint(n_min - 2, n_max + 2), n_min + c['m'], n_min + c['m'] + 1, n_max - c['m'],
+        c['n'] = rng.choice([rng.randint(n_min - 2, n_max + 2), rng.randint(n_min + g4 + c['m'], max(n_min + g4 + c['m'], n_max - g4 - c['m'])),
+                             rng.randint(n_min + g4 + c['m'], max(n_min + g4 + c['m'], n_max - g4 - c['m'])), n_min + c['m'], n_min + c['m'] + 1, n_max - c['m'],
                              n_max - c['m'] + 1, n_min + g4, n_min + g4 - 1, n_max - g4, n_max - g4 + 1])
     elif op == 'order':
         k = rng.randint(0, 7)
